@@ -1272,7 +1272,8 @@ func handleAction(c *webClient, a any) error {
 	case permissionsChangedAction:
 		g := c.Group()
 		if g == nil {
-			return errors.New("Permissions changed in no group")
+			// we have left the group in the meantime
+			return nil
 		}
 		perms := append([]string(nil), c.permissions...)
 		status := g.Status(true, nil)
